@@ -2116,7 +2116,7 @@ def main(run):
         procs = max(1, min(nw, int(os.environ.get("VERIF_PROCS") or nw)))      # shards stay the same, only the parallelism changes
         bpm = 1000 if thorough else 55
         ppm = 1000 if thorough else 250
-        per = run.n(450, 28000)
+        per = run.n(450, 14000)
         # one pool: worker w runs shard w of the three products (alias bodies x decorations, spellings, operator pairs),
         # worker 0 also the malformed list, then its share of the generated pipelines
         common.pool_map(run, __name__, "worker_all",
